@@ -164,7 +164,14 @@ func (W *vWorld) opNew(tag string) {
 	if vMode == 2 {
 		return
 	}
+	exp := vEnt{alive: true}
+	for _, c := range cs {
+		exp.has[c] = true
+	}
+	exp.tgt = [2]Entity{t0, t1}
+	W.armNew(exp, vEvents{create: 1, addRel: vB2I(len(W.rels(cs, t0, t1)) > 0)})
 	vcheck(tag+"/new/no-panic", !vpanics(func() { i = W.create(cs, t0, t1) }))
+	W.disarm(tag + "/new")
 	vcheck(tag+"/new/fresh-handle", W.freshHandle(W.e[i].h, i))
 	vcheck(tag+"/new/zero-initialised", vpure(func() bool { return W.zeroNew(i, cs) }))
 	W.clearModelVals(i, cs)
@@ -200,16 +207,21 @@ func (W *vWorld) opAdd(tag string) {
 	if vMode == 2 {
 		return
 	}
-	vcheck(tag+"/add/no-panic", !vpanics(call))
-	for _, c := range cs {
-		m.has[c] = true
-		if c == cR1 {
-			m.tgt[0] = t0
-		}
-		if c == cR2 {
-			m.tgt[1] = t1
+	upd := func(m *vEnt) {
+		for _, c := range cs {
+			m.has[c] = true
+			if c == cR1 {
+				m.tgt[0] = t0
+			}
+			if c == cR2 {
+				m.tgt[1] = t1
+			}
 		}
 	}
+	W.arm(i, upd, vEvents{add: 1, addRel: vB2I(len(W.rels(cs, t0, t1)) > 0)})
+	vcheck(tag+"/add/no-panic", !vpanics(call))
+	upd(m)
+	W.disarm(tag + "/add")
 	vcheck(tag+"/add/zero-initialised", vpure(func() bool { return W.zeroNew(i, cs) }))
 	W.clearModelVals(i, cs)
 	W.checkAll(tag + "/add")
@@ -235,16 +247,25 @@ func (W *vWorld) opRemove(tag string) {
 	if vMode == 2 {
 		return
 	}
-	vcheck(tag+"/remove/no-panic", !vpanics(call))
-	for _, c := range cs {
-		m.has[c] = false
-		if c == cR1 {
-			m.tgt[0] = Entity{}
-		}
-		if c == cR2 {
-			m.tgt[1] = Entity{}
+	relRemoved := false
+	upd := func(m *vEnt) {
+		for _, c := range cs {
+			m.has[c] = false
+			if c == cR1 {
+				m.tgt[0] = Entity{}
+			}
+			if c == cR2 {
+				m.tgt[1] = Entity{}
+			}
 		}
 	}
+	for _, c := range cs {
+		relRemoved = relRemoved || vIsRel(c)
+	}
+	W.arm(i, upd, vEvents{rem: 1, remRel: vB2I(relRemoved)})
+	vcheck(tag+"/remove/no-panic", !vpanics(call))
+	upd(m)
+	W.disarm(tag + "/remove")
 	W.checkAll(tag + "/remove")
 	vreach(tag + "/remove")
 }
@@ -270,20 +291,25 @@ func (W *vWorld) opExchange(tag string) {
 	if vMode == 2 {
 		return
 	}
+	upd := func(m *vEnt) {
+		m.has[ca], m.has[cr] = true, false
+		if ca == cR1 {
+			m.tgt[0] = t
+		}
+		if ca == cR2 {
+			m.tgt[1] = t
+		}
+		if cr == cR1 {
+			m.tgt[0] = Entity{}
+		}
+		if cr == cR2 {
+			m.tgt[1] = Entity{}
+		}
+	}
+	W.arm(i, upd, vEvents{rem: 1, remRel: vB2I(vIsRel(cr)), add: 1, addRel: vB2I(vIsRel(ca))})
 	vcheck(tag+"/exchange/no-panic", !vpanics(call))
-	m.has[ca], m.has[cr] = true, false
-	if ca == cR1 {
-		m.tgt[0] = t
-	}
-	if ca == cR2 {
-		m.tgt[1] = t
-	}
-	if cr == cR1 {
-		m.tgt[0] = Entity{}
-	}
-	if cr == cR2 {
-		m.tgt[1] = Entity{}
-	}
+	upd(m)
+	W.disarm(tag + "/exchange")
 	vcheck(tag+"/exchange/zero-initialised", vpure(func() bool { return W.zeroNew(i, []int{ca}) }))
 	W.clearModelVals(i, []int{ca})
 	W.checkAll(tag + "/exchange")
@@ -304,8 +330,12 @@ func (W *vWorld) opSetRelations(tag string) {
 	if vMode == 2 {
 		return
 	}
+	upd := func(m *vEnt) { m.tgt[c-cR1] = t }
+	changed := vB2I(m.tgt[c-cR1] != t)
+	W.arm(i, upd, vEvents{remRel: changed, addRel: changed})
 	vcheck(tag+"/setrel/no-panic", !vpanics(call))
-	m.tgt[c-cR1] = t
+	upd(m)
+	W.disarm(tag + "/setrel")
 	W.checkAll(tag + "/setrel")
 	vreach(tag + "/setrel")
 }
@@ -321,7 +351,9 @@ func (W *vWorld) opRemoveEntity(tag string) {
 	if vMode == 2 {
 		return
 	}
+	W.arm(i, func(*vEnt) {}, vEvents{remEnt: 1, remRel: vB2I(m.has[cR1] || m.has[cR2])})
 	vcheck(tag+"/remove-entity/no-panic", !vpanics(call))
+	W.disarm(tag + "/remove-entity")
 	m.alive = false
 	W.detach(m.h)
 	W.checkAll(tag + "/remove-entity")
@@ -343,7 +375,9 @@ func (W *vWorld) opCopy(tag string) {
 	if vMode == 2 {
 		return
 	}
+	W.armNew(*m, vEvents{create: 1, addRel: vB2I(m.has[cR1] || m.has[cR2])})
 	vcheck(tag+"/copy/no-panic", !vpanics(call))
+	W.disarm(tag + "/copy")
 	j := W.n
 	W.n++
 	W.e[j] = *m
@@ -369,7 +403,9 @@ func (W *vWorld) opSet(tag string) {
 	if vMode == 2 {
 		return
 	}
+	W.arm(i, func(m *vEnt) { m.pos = v }, vEvents{set: 1})
 	vcheck(tag+"/set/no-panic", !vpanics(call))
+	W.disarm(tag + "/set")
 	m.pos = v
 	W.checkAll(tag + "/set")
 	vreach(tag + "/set")
